@@ -92,10 +92,17 @@ func (ns *normState) fileSrc(name string) ([]byte, error) {
 
 type calleeInfo struct {
 	decl *ast.FuncDecl
-	obj  *types.Func
+	obj  *types.Func // nil for a function literal bound to a local variable
+	sig  *types.Signature
 	file *ast.File
 	pkg  *packages.Package
 	key  string
+	// function literal bound to a never-reassigned local that is only called (beta-reduction):
+	litVar   *types.Var
+	litDecl  ast.Stmt // the `var f T = func...` statement
+	litBlank ast.Stmt // the `_ = f` statement after it, if any
+	litCalls int      // call uses of the variable
+	litDone  int      // of which inlined this round
 }
 
 func (ns *normState) round(p *Prog) (bool, error) {
@@ -121,11 +128,8 @@ func (ns *normState) round(p *Prog) (bool, error) {
 				if obj == nil || !eligibleCallee(pkg, fd, obj) {
 					continue
 				}
-				cands[obj] = &calleeInfo{decl: fd, obj: obj, file: f, pkg: pkg, key: key}
+				cands[obj] = &calleeInfo{decl: fd, obj: obj, sig: obj.Type().(*types.Signature), file: f, pkg: pkg, key: key}
 			}
-		}
-		if len(cands) == 0 {
-			continue
 		}
 		// total references to each candidate (to know when a helper became dead code)
 		uses := map[*types.Func]int{}
@@ -193,9 +197,11 @@ func (ns *normState) round(p *Prog) (bool, error) {
 
 // eligibleCallee: conservative syntactic conditions under which the body can be spliced.
 func eligibleCallee(pkg *packages.Package, fd *ast.FuncDecl, obj *types.Func) bool {
-	sig := obj.Type().(*types.Signature)
-	if sig.TypeParams() != nil || sig.RecvTypeParams() != nil {
-		return false
+	if obj != nil {
+		sig := obj.Type().(*types.Signature)
+		if sig.TypeParams() != nil || sig.RecvTypeParams() != nil {
+			return false
+		}
 	}
 	if fd.Type.Results != nil {
 		for _, f := range fd.Type.Results.List {
@@ -219,10 +225,10 @@ func eligibleCallee(pkg *packages.Package, fd *ast.FuncDecl, obj *types.Func) bo
 				ok = false
 			}
 			// direct recursion
-			if id, isId := x.Fun.(*ast.Ident); isId && pkg.TypesInfo.Uses[id] == types.Object(obj) {
+			if id, isId := x.Fun.(*ast.Ident); isId && obj != nil && pkg.TypesInfo.Uses[id] == types.Object(obj) {
 				ok = false
 			}
-			if se, isSel := x.Fun.(*ast.SelectorExpr); isSel && pkg.TypesInfo.Uses[se.Sel] == types.Object(obj) {
+			if se, isSel := x.Fun.(*ast.SelectorExpr); isSel && obj != nil && pkg.TypesInfo.Uses[se.Sel] == types.Object(obj) {
 				ok = false
 			}
 		case ast.Stmt:
@@ -267,11 +273,17 @@ func (ns *normState) collect(p *Prog, pkg *packages.Package, f *ast.File, src []
 		return s, !qualErr
 	}
 
+	lits := litCandidates(pkg, f)
 	resolve := func(call *ast.CallExpr) (*calleeInfo, ast.Expr) {
 		switch fun := call.Fun.(type) {
 		case *ast.Ident:
 			if fn, ok := pkg.TypesInfo.Uses[fun].(*types.Func); ok {
 				if ci := cands[fn]; ci != nil && ci.decl.Recv == nil {
+					return ci, nil
+				}
+			}
+			if v, ok := pkg.TypesInfo.Uses[fun].(*types.Var); ok {
+				if ci := lits[v]; ci != nil {
 					return ci, nil
 				}
 			}
@@ -346,7 +358,7 @@ func (ns *normState) collect(p *Prog, pkg *packages.Package, f *ast.File, src []
 			return false
 		}
 		// the callee must not be the function we are in (mutual recursion is cut by the round limit)
-		sig := ci.obj.Type().(*types.Signature)
+		sig := ci.sig
 		ns.counter++
 		k := fmt.Sprintf("_i%d", ns.counter)
 		var pre bytes.Buffer
@@ -475,7 +487,11 @@ func (ns *normState) collect(p *Prog, pkg *packages.Package, f *ast.File, src []
 			fmt.Fprintf(&pre, "defer func() {\n%s\n}()\n", body)
 			*edits = append(*edits, textEdit{off(st.Pos()), off(st.End()), pre.String()})
 			ns.inlined[ci.key] = true
-			ns.sites[ci.obj]++
+			if ci.obj != nil {
+				ns.sites[ci.obj]++
+			} else {
+				ci.litDone++
+			}
 			return true
 		}
 		if hasRet {
@@ -504,7 +520,11 @@ func (ns *normState) collect(p *Prog, pkg *packages.Package, f *ast.File, src []
 			*edits = append(*edits, textEdit{off(call.Pos()), off(call.End()), rlist})
 		}
 		ns.inlined[ci.key] = true
-		ns.sites[ci.obj]++
+		if ci.obj != nil {
+			ns.sites[ci.obj]++
+		} else {
+			ci.litDone++
+		}
 		return true
 	}
 
@@ -565,6 +585,106 @@ func (ns *normState) collect(p *Prog, pkg *packages.Package, f *ast.File, src []
 		}
 		visitList(fd.Body.List, fd.Type)
 	}
+	// a literal all of whose calls were spliced in is deleted together with its `_ = f` line
+	for _, ci := range lits {
+		if ci.litCalls > 0 && ci.litDone == ci.litCalls {
+			*edits = append(*edits, textEdit{off(ci.litDecl.Pos()), off(ci.litDecl.End()), ""})
+			if ci.litBlank != nil {
+				*edits = append(*edits, textEdit{off(ci.litBlank.Pos()), off(ci.litBlank.End()), ""})
+			}
+		}
+	}
+}
+
+// litCandidates finds `var f T = func(...) {...}` statements (the temporaries the normaliser itself
+// emits for a function-literal argument of an inlined helper, or the same written by hand) whose
+// variable is never assigned again and is used only as the callee of direct calls (and in `_ = f`).
+// Calling such a literal is replaced by its body like a call of a new helper (beta-reduction), so a
+// helper taking a callback — `rb.eachServer(func(s *rbServer) {...})` — normalises to a plain loop.
+func litCandidates(pkg *packages.Package, f *ast.File) map[*types.Var]*calleeInfo {
+	out := map[*types.Var]*calleeInfo{}
+	info := pkg.TypesInfo
+	ast.Inspect(f, func(n ast.Node) bool {
+		bs, ok := n.(*ast.BlockStmt)
+		if !ok {
+			return true
+		}
+		for i, st := range bs.List {
+			ds, ok := st.(*ast.DeclStmt)
+			if !ok {
+				continue
+			}
+			gd, ok := ds.Decl.(*ast.GenDecl)
+			if !ok || gd.Tok != token.VAR || len(gd.Specs) != 1 {
+				continue
+			}
+			vs, ok := gd.Specs[0].(*ast.ValueSpec)
+			if !ok || len(vs.Names) != 1 || len(vs.Values) != 1 {
+				continue
+			}
+			lit, ok := vs.Values[0].(*ast.FuncLit)
+			if !ok {
+				continue
+			}
+			v, _ := info.Defs[vs.Names[0]].(*types.Var)
+			sig, _ := info.TypeOf(lit).(*types.Signature)
+			if v == nil || sig == nil || sig.Variadic() {
+				continue
+			}
+			ci := &calleeInfo{
+				decl:   &ast.FuncDecl{Name: vs.Names[0], Type: lit.Type, Body: lit.Body},
+				sig:    sig,
+				file:   f,
+				pkg:    pkg,
+				key:    "lit:" + vs.Names[0].Name,
+				litVar: v, litDecl: st,
+			}
+			if i+1 < len(bs.List) {
+				if as, ok := bs.List[i+1].(*ast.AssignStmt); ok && len(as.Lhs) == 1 && len(as.Rhs) == 1 {
+					if l, ok := as.Lhs[0].(*ast.Ident); ok && l.Name == "_" {
+						if r, ok := as.Rhs[0].(*ast.Ident); ok && info.Uses[r] == types.Object(v) {
+							ci.litBlank = as
+						}
+					}
+				}
+			}
+			if eligibleCallee(pkg, ci.decl, nil) {
+				out[v] = ci
+			}
+		}
+		return true
+	})
+	if len(out) == 0 {
+		return out
+	}
+	// uses: only call position or the blank assignment; never assigned
+	callee := map[*ast.Ident]bool{}
+	ast.Inspect(f, func(n ast.Node) bool {
+		if c, ok := n.(*ast.CallExpr); ok {
+			if id, ok := c.Fun.(*ast.Ident); ok {
+				callee[id] = true
+			}
+		}
+		return true
+	})
+	for id, o := range info.Uses {
+		v, ok := o.(*types.Var)
+		if !ok {
+			continue
+		}
+		ci := out[v]
+		if ci == nil || id.Pos() < f.Pos() || id.Pos() >= f.End() {
+			continue
+		}
+		switch {
+		case callee[id]:
+			ci.litCalls++
+		case ci.litBlank != nil && id.Pos() >= ci.litBlank.Pos() && id.Pos() < ci.litBlank.End():
+		default:
+			delete(out, v) // escapes, is reassigned, or is passed on: leave it alone
+		}
+	}
+	return out
 }
 
 // renderBody returns the callee's body text with its locals (params, receiver, declared
@@ -655,8 +775,8 @@ func (ns *normState) renderBodyMode(p *Prog, ci *calleeInfo, k string, rnames []
 					for i := range blanks {
 						blanks[i] = "_"
 					}
-					if len(x.Results) == 1 && ci.obj.Type().(*types.Signature).Results().Len() > 1 {
-						blanks = make([]string, ci.obj.Type().(*types.Signature).Results().Len())
+					if len(x.Results) == 1 && ci.sig.Results().Len() > 1 {
+						blanks = make([]string, ci.sig.Results().Len())
 						for i := range blanks {
 							blanks[i] = "_"
 						}
@@ -750,7 +870,8 @@ func captureSafe(pkg *packages.Package, ci *calleeInfo, at token.Pos) bool {
 		if _, isPkg := o.(*types.PkgName); isPkg {
 			return true // handled above
 		}
-		if o.Parent() == pkg.Types.Scope() || o.Parent() == types.Universe {
+		if o.Parent() == pkg.Types.Scope() || o.Parent() == types.Universe || ci.litVar != nil {
+			// (for a literal: also the enclosing function's locals it captures must be the ones visible at the call)
 			_, o2 := scope.LookupParent(id.Name, at)
 			if o2 != o {
 				ok = false
